@@ -387,6 +387,20 @@ theorem substring_spec (s : Str) (lo hi : Int) :
       simp only [Bool.or_eq_true, decide_eq_true_eq]; omega
     simp only [this, if_true, h, if_false]
 
+/-- **substringOpen_spec** — `s[low:]` panics exactly when `low` is outside `[0, len]`, else yields the suffix. -/
+theorem substringOpen_spec (s : Str) (lo : Int) :
+    substringOpen s lo = (if 0 ≤ lo ∧ lo ≤ s.length then some (s.drop lo.toNat) else none) := by
+  unfold substringOpen
+  rw [substring_spec]
+  by_cases h : 0 ≤ lo ∧ lo ≤ (s.length : Int)
+  · have h2 : 0 ≤ lo ∧ lo ≤ (s.length : Int) ∧ (s.length : Int) ≤ s.length := ⟨h.1, h.2, Int.le_refl _⟩
+    rw [if_pos h2, if_pos h]
+    congr 1
+    apply List.take_of_length_le
+    simp only [List.length_drop]; omega
+  · have h2 : ¬ (0 ≤ lo ∧ lo ≤ (s.length : Int) ∧ (s.length : Int) ≤ s.length) := fun x => h ⟨x.1, x.2.1⟩
+    rw [if_neg h2, if_neg h]
+
 /-- **bytesToString_spec** — `string(b)` for a byte slice (`$bytesToString`, which converts in chunks to stay below the
     engine's argument limit): for every backing array, offset, length and every positive chunk size the result is exactly
     the bytes of the slice window — chunking is invisible. (Instance: the code's chunk size 10000.) -/
